@@ -827,6 +827,7 @@ def run_chunk(task) -> dict:
                         printed=None, failure={k: v for k, v in f.items() if v is not None},
                         message=_message(f, tree_str(t), None)))
     res["wall"] = time.process_time() - t00
+    res["chunk"] = task.get("chunk", 0)
     return res
 
 
